@@ -2101,6 +2101,7 @@ func (c S3ApiController) PutActions(ctx *fiber.Ctx) error {
 
 		err = auth.VerifyObjectCopyAccess(ctx.Context(), c.be, copySource,
 			auth.AccessOptions{
+				Readonly:      c.readonly,
 				Acl:           parsedAcl,
 				AclPermission: auth.PermissionWrite,
 				IsRoot:        isRoot,
@@ -2448,6 +2449,7 @@ func (c S3ApiController) PutActions(ctx *fiber.Ctx) error {
 
 		err = auth.VerifyObjectCopyAccess(ctx.Context(), c.be, copySource,
 			auth.AccessOptions{
+				Readonly:      c.readonly,
 				Acl:           parsedAcl,
 				AclPermission: auth.PermissionWrite,
 				IsRoot:        isRoot,
